@@ -135,6 +135,75 @@ theorem gslWeights_sum (L : Nat) (hL : 0 < L) : (BlackIt.Loss.gslWeights (Nat.ca
 end Weights
 
 /-! ## Fourier: the ideal low-pass mask -/
+section Discretize
+variable {α : Type} [Field α] [LinearOrder α] [IsStrictOrderedRing α]
+
+theorem linspace_length (start stop : α) (n : Nat) : (linspace (Nat.cast : Nat → α) start stop n).length = n + 1 := by
+  simp [linspace]
+
+theorem linspace_head (start stop : α) (n : Nat) (hn : 0 < n) :
+    (linspace (Nat.cast : Nat → α) start stop n).head? = some start := by
+  unfold linspace
+  rw [List.range_succ_eq_map]
+  simp [Nat.pos_iff_ne_zero.mp hn |>.symm]
+
+theorem linspace_last (start stop : α) (n : Nat) :
+    (linspace (Nat.cast : Nat → α) start stop n).getLast? = some stop := by
+  unfold linspace
+  rw [List.range_succ]
+  simp
+
+/-- **every symbol lies in `1 … nb_values`**: a value between the minimum and the maximum of the series has the first
+node (`min − EPS`) below it and the last node (`max + EPS`) not below it -/
+theorem discretize_range (eps : α) (heps : 0 < eps) (ts : List α) (nb : Nat) (hnb : 0 < nb) (lo hi : α)
+    (hts : ∀ v ∈ ts, lo ≤ v ∧ v ≤ hi) :
+    ∀ s ∈ discretize (Nat.cast : Nat → α) eps ts nb lo hi, 1 ≤ s ∧ s ≤ nb := by
+  intro s hs
+  unfold discretize at hs
+  simp only [List.mem_map] at hs
+  obtain ⟨v, hv, rfl⟩ := hs
+  obtain ⟨h1, h2⟩ := hts v hv
+  set nodes := linspace (Nat.cast : Nat → α) (lo - eps) (hi + eps) nb with hnodes
+  have hlen : nodes.length = nb + 1 := linspace_length _ _ _
+  have hhead : nodes.head? = some (lo - eps) := linspace_head _ _ _ hnb
+  have hlast : nodes.getLast? = some (hi + eps) := linspace_last _ _ _
+  constructor
+  · -- the first node is below v
+    obtain ⟨x, xs, hx⟩ : ∃ x xs, nodes = x :: xs := by
+      cases hn : nodes with
+      | nil => rw [hn] at hlen; simp at hlen
+      | cons x xs => exact ⟨x, xs, rfl⟩
+    rw [hx] at hhead ⊢
+    simp only [List.head?_cons, Option.some.injEq] at hhead
+    have : x < v := by rw [hhead]; linarith
+    simp [List.filter_cons, this]
+  · -- the last node is not below v
+    obtain ⟨init, hinit⟩ : ∃ init, nodes = init ++ [hi + eps] := by
+      rcases List.eq_nil_or_concat nodes with h | ⟨init, a, h⟩
+      · rw [h] at hlen; simp at hlen
+      · refine ⟨init, ?_⟩
+        rw [h] at hlast ⊢
+        simp only [List.concat_eq_append, List.getLast?_append, List.getLast?_singleton, Option.some_or, Option.some.injEq] at hlast
+        rw [hlast]; simp
+    rw [hinit] at hlen ⊢
+    have hnot : ¬ (hi + eps < v) := by linarith
+    simp only [List.filter_append, List.filter_cons, List.filter_nil, decide_eq_true_eq, hnot, if_false, List.append_nil]
+    have := List.length_filter_le (fun nd => decide (nd < v)) init
+    simp only [List.length_append, List.length_singleton] at hlen
+    omega
+
+/-- the symbols respect the order of the values -/
+theorem discretize_mono (eps : α) (nb : Nat) (lo hi v w : α) (h : v ≤ w) :
+    (discretize (Nat.cast : Nat → α) eps [v] nb lo hi).head! ≤ (discretize (Nat.cast : Nat → α) eps [w] nb lo hi).head! := by
+  simp only [discretize, List.map_cons, List.map_nil, List.head!_cons]
+  apply List.Sublist.length_le
+  apply List.monotone_filter_right
+  intro nd hnd
+  simp only [decide_eq_true_eq] at hnd ⊢
+  exact lt_of_lt_of_le hnd h
+
+end Discretize
+
 section Fourier
 variable {α : Type} [Field α]
 
